@@ -25,6 +25,11 @@ def concretize(tc, idx, probe=False):
         i = j + 1
         kw = {"m": r["m"], "ver": r["ver"], "conn": r["conn"]}
         body = r["body"]
+        if tc.get("upg", 0) == i:
+            # the last request asks for an upgrade and an upgrade service is configured
+            reqs.append({"m": "GET", "ver": 11, "conn": "upgrade", "extra": [["upgrade", "websocket"]]})
+            progs.append({"pend": 0, "read": "none", "keep": "handler", "resp": {"status": 101, "conn": "-", "body": {"k": "empty"}}})
+            continue
         if r["m"] == "GET" and body != "none":
             kw["m"] = "POST"
         if bad["at"] == i and bad["kind"] == "head":
@@ -46,7 +51,8 @@ def concretize(tc, idx, probe=False):
                      "stream": {"k": "body-stream", "chunks": [10, 10]}}[rb]
         progs.append({"pend": p["pend"], "read": p["read"], "keep": p["keep"],
                       "resp": {"status": p["status"], "conn": p["rconn"], "body": body_prog}})
-    cfg = {"ka_ms": 5000 if tc.get("ka", True) else 0, "head_ms": 0, "disc_ms": 0, "half_closed": tc.get("half_closed", True)}
+    cfg = {"ka_ms": 5000 if tc.get("ka", True) else 0, "head_ms": 0, "disc_ms": 0, "half_closed": tc.get("half_closed", True),
+           "upgrade": tc.get("upg", 0) != 0}
     b0 = tc.get("budget0", 99)
     sock = {"budget": -1 if b0 >= 99 else b0 * 37}
     case = h1gen.assemble(reqs, progs, cfg=cfg, sock=sock, epilogue=False, probe=probe)
@@ -54,7 +60,9 @@ def concretize(tc, idx, probe=False):
     for j, g in enumerate(case["gt"]):
         r = tc["reqs"][j]
         i = j + 1
-        if bad["at"] == i and bad["kind"] == "head":
+        if tc.get("upg", 0) == i:
+            unit_bytes.append(g["wirelen"])
+        elif bad["at"] == i and bad["kind"] == "head":
             unit_bytes.append(g["wirelen"])
         elif bad["at"] == i and bad["kind"] == "chunk":
             good = 3 + 6 + 2
